@@ -7,7 +7,7 @@
     forest_positional_differs true_pred_irrelevant self_prefix_irrelevant_partial
     simple_eq_generic_partial equivalent_spellings_agree self_prefix_irrelevant_nonpositional
     dslash_is_descendant simple_eq_generic_kmp simple_eq_generic_fragments_partial
-    self_prefix_default_choice
+    self_prefix_default_choice simple_eq_generic_fragments_pattern
 -/
 import Genshi.Model.Path
 import Genshi.Model.PathParse
@@ -604,5 +604,49 @@ theorem self_prefix_default_choice (frags : List Frag) (hok : Frags.FragsOk frag
   have e2 := simple_eq_generic_fragments_partial frags hok ns vs skip tag attrs kids hcl hn
   simp only [pathTest, List.map_cons, List.map_nil, hc1, hc2, Option.getD_some] at e1 e2 ⊢
   rw [e1, e2]
+
+/-- **simple_eq_generic in pattern mode** (`Path.test(ignore_context=True)`, what match
+    templates use), for the path of every fragment list: SimplePathStrategy matches the first
+    non-empty fragment with KMP from the root on (entry `(fid0, 0, ic = True)`), GenericStrategy
+    rewrites the first step to `descendant-or-self::` (`gSteps_pattern`) — both report `True`
+    exactly at the nodes `descendant-or-self::first/rest` selects from the root
+    (`Frags.simple_marks_pattern`; `generic_nonpos_marks`, the core of C05
+    `pattern_matches_eq_xp`), hence the same at every event, both caller behaviours, every
+    element tree. -/
+theorem simple_eq_generic_fragments_pattern (frags : List Frag) (hok : Frags.FragsOk frags)
+    (ns : NsMap) (vs : Vars) (skip : Bool)
+    (tag : QName) (attrs : AttrList) (kids : List Node)
+    (hcl : (Node.elem tag attrs kids).clean = true)
+    (hn : AllNodes (NodeFor (Frags.normPath frags) ns vs) (.elem tag attrs kids)) :
+    traceCaller (pathTest [Frags.normPath frags] true (some .simple)).1 ns vs skip
+        (pathTest [Frags.normPath frags] true (some .simple)).2 (Node.elem tag attrs kids).flatten
+      = traceCaller (pathTest [Frags.normPath frags] true (some .generic)).1 ns vs skip
+        (pathTest [Frags.normPath frags] true (some .generic)).2 (Node.elem tag attrs kids).flatten := by
+  have hkcl : cleanList kids = true := by simpa [Node.clean] using hcl
+  have hS := Frags.stepsOk_patPath ns vs frags hok
+  have hN : AllNodes (NodeFor (Frags.patPath frags) ns vs) (.elem tag attrs kids) := by
+    refine AllNodes.imp (fun n h => ?_) _ hn
+    obtain ⟨h1, h2, h3, _⟩ := h
+    refine ⟨h1, h2, h3, ?_⟩
+    intro s hs q hq
+    rw [(Frags.mem_patPath frags s hs).2.2] at hq; simp at hq
+  obtain ⟨s1, s2⟩ := Frags.simple_marks_pattern ns (toXVars vs) frags hok tag attrs kids hkcl
+  obtain ⟨g, r, hgr⟩ := Frags.patPath_head frags hok
+  simp only [traceCaller, pathTest, List.map_cons, List.map_nil, mkMatcher]
+  congr 1
+  rw [Frags.runTest_simpleL, runTest_generic, Frags.fragments_normPath frags hok, Frags.gSteps_pattern frags hok]
+  apply vals_eq_of_marks (eventLocs (.elem tag attrs kids) []) _ _ s1
+    (okVals_run _ (gStep_out _ ns vs (fun e => hS.lastResult ns vs e)) _ [] _) (eventLocs_nodup _ [])
+  intro x
+  apply Bool.eq_iff_iff.mpr
+  rw [s2 ⟨x, .elem tag attrs kids⟩, generic_nonpos_marks ns vs _ hS _ hcl hN ⟨x, .elem tag attrs kids⟩]
+  simp [RR, pathAt, convAxis, withAxis, hgr]
+
+-- non-vacuity: the pattern `a/descendant::b/c` on <r><x><a><b><c/></b></a></x></r> matches the <c/>
+example : runTest (pathTest [Frags.normPath fragsABC] true (some .simple)).1 [] []
+    (pathTest [Frags.normPath fragsABC] true (some .simple)).2
+    (Node.elem ⟨[], ['r']⟩ [] [Node.elem ⟨[], ['x']⟩ [] [Node.elem ⟨[], ['a']⟩ [] [Node.elem ⟨[], ['b']⟩ []
+      [Node.elem ⟨[], ['c']⟩ [] []]]]]).flatten
+    = [.none, .none, .none, .none, .bool true, .none, .none, .none, .none, .none] := by decide +kernel
 
 end Genshi.Props.C17
